@@ -702,7 +702,7 @@ dt_strpdt(const char *str, const char *fmt, char **ep)
 		goto sober;
 	case DT_UMMULQURA:
 		res.d = dt_strpd_special(sp, DT_UMMULQURA, &on);
-		if (*(sp = on)) {
+		if (*(sp = on) || res.d.typ == DT_DUNK) {
 			/* only accept dates for now */
 			goto fucked;
 		}
